@@ -63,6 +63,8 @@ def make_case(rng, tier):
     dtstart = probe.items[rng.choice([0, 0, 0, 1, 2, 3]) % len(probe.items)]
     N = rng.choice([5, 5, 20, 20, 70, 70, 130, 200, 400]) if tier != "quick" else rng.choice([5, 20, 20, 70, 70, 130, 200])
     mode = rng.random()
+    if r.pop("boundary_weeks", None) and mode < 0.3:
+        mode = 0.4          # no COUNT: whether the days in the neighbouring year count is the reader's choice
     if mode < 0.3:
         r["count"] = rng.choice(rulegen.COUNTS)
     elif mode < 0.55:
@@ -137,6 +139,10 @@ def judge(part, dtstart, r, N, got, ended, mon, style, text, orc):
         sG = {x for x in sG if x <= lim}
     missing = sorted(sE - sG)
     extra = sorted(sG - sE)
+    if r.get("byweekno"):
+        # days of week 1/52/53 that lie in the neighbouring calendar year: a reader may leave them out; what it
+        # delivers must still be in the set
+        missing = [x for x in missing if x.isocalendar()[0] == x.year]
     if len(Gw) != len(set(Gw)):
         fails.append(("duplicate", "an instant is delivered twice"))
     if missing:
